@@ -243,11 +243,17 @@ def run(binary, steps, env=None, settle=3.0, final_stop=True):
     elif not sent_quit:
         # settle: stop whatever is running, give pending bestmoves time to arrive, then quit
         if final_stop and s.alive():
+            # the event takes its place in the trace where the command was SENT: what arrived before it first, what
+            # it caused after it (an engine that answers `stop` before the fence's readyok must not look as if it had
+            # answered before the stop)
+            pump()
+            t_stop = int((time.time() - s.t0) * 1000)
+            seen = count_best()
             s.send("stop")
             answered, _ = fence()
+            events.append({"ev": "cmd", "text": "stop", "kind": "stop", "t": t_stop, "afterbest": False,
+                           "best_seen": seen, "delivered": True, "ready": answered, "refused": False, "error": ""})
             pump()
-            events.append({"ev": "cmd", "text": "stop", "kind": "stop", "t": int((time.time() - s.t0) * 1000), "afterbest": False,
-                           "best_seen": count_best(), "delivered": True, "ready": answered, "refused": False, "error": ""})
             if accepted_gos[0] > 0:
                 # every accepted go has now been stopped: wait for the answers (the monitor judges an expired wait)
                 want = accepted_gos[0]
